@@ -19,7 +19,7 @@ REQUIRED_CLASSES = ["has_extended_arg", "extended_arg_on_jump", "split_line_entr
 
 
 def examples(tier):
-    return 4000 if tier == "quick" else 60000
+    return 4000 if tier == "quick" else 100000
 
 
 def wall_budget(tier):
